@@ -4,8 +4,9 @@
   Property theorems only. Models: GeoModel/Triangulate.lean (ear-cut glue, the constrained
   Delaunay inside filter, `find_boundary_lines`), GeoModel/MonoPoly.lean (point location in a
   monotone piece, after the `fix:` commit), GeoModel/Tiling.lean (the exact tiling checker).
-  The engines (earcutr, spade, the sweep builder) are parameters: no theorem is about them; their
-  outputs are decided per case by `Tiling.tiles`.
+  The engines (earcutr, spade) are parameters: no theorem is about them; their outputs are decided
+  per case by `Tiling.tiles`. The builder of the monotone pieces is modelled (GeoModel/MonoBuildSweep.lean,
+  MonoBuild.lean, compared with the code by `C10.monobuild`); the last section is about that model.
 -/
 import GeoModel.Triangulate
 import GeoModel.MonoPoly
@@ -13,6 +14,7 @@ import GeoModel.Tiling
 import GeoProofs.Lemmas.C10Earcut
 import GeoProofs.Lemmas.C10Stitch
 import GeoProofs.Lemmas.C10Mono
+import GeoProofs.Lemmas.MONOInit
 import GeoProofs.Props.C19
 import Mathlib.Tactic.NormNum
 
@@ -326,5 +328,52 @@ theorem pieceArea_triangle (a b c : Pt) :
   rw [h]
   unfold rabs
   split <;> split <;> grind
+
+/-! ### the builder of the monotone pieces (`monotone_subdivision`, model `MonoBuild.monotoneSubdivision`) -/
+
+open Geo.MonoBuild Geo.Proofs.MONO in
+/-- [T] every coordinate of every piece that `monotone_subdivision` emits is a coordinate of an input polygon —
+for all inputs, valid or not (sweep-state invariant `InvV`: the end points of all segments, including the ones
+made by `split_at`, the points of all queued events and the coordinates of all chains are input coordinates). -/
+theorem monotone_pieces_vertices_are_input (ps : List Poly) (ms : List MonoPoly)
+    (h : monotoneSubdivision ps = some ms) :
+    ∀ m ∈ ms, ∀ p ∈ m.top ++ m.bot, p ∈ inputCoords ps := by
+  unfold monotoneSubdivision at h
+  cases hb : buildState ps with
+  | none => rw [hb] at h; cases h
+  | some st =>
+    rw [hb] at h
+    simp only [Option.map_some, Option.some.injEq] at h
+    subst h
+    intro m hm p hp
+    have := (buildState_inv hb).outs m hm
+    rcases List.mem_append.1 hp with g | g
+    · exact this.1.1 p g
+    · exact this.2.1.1 p g
+
+open Geo.MonoBuild Geo.Proofs.MONO in
+/-- [T] every emitted piece is closed by `Chain::finish_with`: both chains have at least two coordinates, start at
+the same coordinate and end at the same coordinate (the four non-order clauses of `wellFormed`) — for all inputs. -/
+theorem monotone_pieces_closed (ps : List Poly) (ms : List MonoPoly)
+    (h : monotoneSubdivision ps = some ms) :
+    ∀ m ∈ ms, 2 ≤ m.top.length ∧ 2 ≤ m.bot.length ∧ m.top.head? = m.bot.head? ∧
+      m.top.getLast? = m.bot.getLast? := by
+  unfold monotoneSubdivision at h
+  cases hb : buildState ps with
+  | none => rw [hb] at h; cases h
+  | some st =>
+    rw [hb] at h
+    simp only [Option.map_some, Option.some.injEq] at h
+    subst h
+    intro m hm
+    have := (buildState_inv hb).outs m hm
+    exact ⟨this.1.2, this.2.1.2, this.2.2.2.2.1, this.2.2.2.2.2⟩
+
+/-- the L shape of F7: two pieces -/
+def lShape : Poly := ⟨[⟨0,2⟩,⟨0,4⟩,⟨3,4⟩,⟨3,0⟩,⟨1,0⟩,⟨1,2⟩,⟨0,2⟩], []⟩
+
+example : MonoBuild.monotoneSubdivision [lShape] =
+    some [⟨[⟨1,0⟩,⟨1,2⟩,⟨3,0⟩], [⟨1,0⟩,⟨3,0⟩]⟩,
+          ⟨[⟨0,2⟩,⟨0,4⟩,⟨3,4⟩], [⟨0,2⟩,⟨1,2⟩,⟨3,0⟩,⟨3,4⟩]⟩] := by decide +kernel
 
 end Geo.Proofs.C10
